@@ -53,6 +53,7 @@ var arenaTree = fsx.Tree{
 	{Path: "l1/l2/l3/c3", Kind: "file", Content: "OUT:c3", Mode: 0755, Sec: 1300000000},
 	{Path: "l1/l2/l3/lnk", Kind: "symlink", Target: "outside/f"},
 	{Path: "l1/l2/l3/dst", Kind: "dir", Mode: 0755},
+	{Path: "l1/l2/l3/dst2", Kind: "dir", Mode: 0755, Sec: 1245000000},
 	{Path: "l1/l2/l3/dst-evil", Kind: "dir", Mode: 0750, Sec: 1250000000},
 	{Path: "l1/l2/l3/dst-evil/x", Kind: "file", Content: "OUT:evil-x", Mode: 0604, Sec: 1260000000},
 	{Path: "l1/l2/l3/dstX", Kind: "file", Content: "OUT:dstX", Mode: 0666, Sec: 1270000000},
@@ -533,12 +534,16 @@ func scenario(t *rapid.T, rest []tarx.Entry) []tarx.Entry {
 type SeqCase struct {
 	First Case   `json:"first"` // arena, spelling, pre-populated dst and the first archive
 	More  []Step `json:"more"`  // the archives that follow
+	// one Packer value (made with the first step's allow-list) serves every call
+	SamePacker bool `json:"same_packer,omitempty"`
 }
 
 type Step struct {
 	Entries []tarx.Entry `json:"entries"`
 	Allow   []string     `json:"allow,omitempty"`
 	Wipe    bool         `json:"wipe,omitempty"` // remove dst's content before this step
+	// unpack into the second destination of the arena (l1/l2/l3/dst2) instead: the first one is then "outside"
+	OtherDst bool `json:"other_dst,omitempty"`
 }
 
 // AsCase renders a step as a Case sharing the first step's arena settings.
@@ -560,7 +565,7 @@ func GenSeq(t *rapid.T) SeqCase {
 	earlier = append(earlier, s.First.Entries...)
 	for i := 0; i < n; i++ {
 		c := GenCase(t, 40, 20, false, true)
-		st := Step{Entries: c.Entries, Allow: c.Allow, Wipe: rapid.IntRange(0, 2).Draw(t, "wipe") == 0}
+		st := Step{Entries: c.Entries, Allow: c.Allow, Wipe: rapid.IntRange(0, 2).Draw(t, "wipe") == 0, OtherDst: rapid.IntRange(0, 3).Draw(t, "otherdst") == 0}
 		// re-type some names of earlier archives
 		k := rapid.IntRange(0, 3).Draw(t, "retype")
 		for j := 0; j < k && len(earlier) > 0; j++ {
@@ -591,7 +596,15 @@ func GenSeq(t *rapid.T) SeqCase {
 		earlier = append(earlier, st.Entries...)
 		s.More = append(s.More, st)
 	}
+	s.SamePacker = rapid.Bool().Draw(t, "samepacker")
 	return s
+}
+
+const Dst2Rel = "l1/l2/l3/dst2"
+
+// SnapshotOutsideOf observes everything in the arena except the given destination (relative to R).
+func (a *Arena) SnapshotOutsideOf(rel string) (map[string]fsx.Entry, error) {
+	return fsx.Snapshot(a.R, func(r string) bool { return r == rel })
 }
 
 // Wipe empties dst (keeping the directory itself).
